@@ -66,7 +66,7 @@ CHECKS = {
         "level": "model_checking",
         "technique": "TLA+ spec Layout (transcription of the lexer's INDENT/DEDENT/NEWLINE algorithm over character classes): TLC "
                      "exhaustive edit-invariance; token streams replayed into the real lexer; ASTs of real programs compared under "
-                     "every edit kind; real token streams validated by TLC (LayoutTrace)",
+                     "every edit kind; real token streams validated by TLC (LayoutTrace); GenSyntax rows as edit bases; comment edits with non-ASCII content of every UTF-8 width",
         "text": "Layout.tla transcribes scan_token/handle_indentation; TLC proves on every class string up to the bound and on "
                 "structured multi-line texts that every single layout edit and uniform re-indentation leaves the normalised token "
                 "stream unchanged. The transcription is tied to the code by feeding every printed text to the real lexer (exact "
@@ -129,7 +129,7 @@ CHECKS = {
     "C08": {
         "level": "translation_validation",
         "technique": "TLA+ contract Format.RunOK + TLC-generated Core programs, construct corpus and repository corpus; real parser and "
-                     "format_source in process, ASTs compared modulo documented equivalences; runs validated by TLC (FormatTrace)",
+                     "format_source in process, ASTs compared modulo documented equivalences; runs validated by TLC (FormatTrace); spec/GenSyntax.tla: the surface grammar walked by TLC (77 productions x every optional field and spelling, depth 1 exhaustive, deeper by simulation), each row stating its tree (oracle parser = spec) and round-tripped through the formatter",
         "text": "Format.tla states the contract; every input (TLC-generated programs from the Core specification, one construct file "
                 "per AST node kind / optional field, the repository's own files) is parsed, formatted, re-parsed and the projected ASTs "
                 "compared (the projection is an exhaustive match over the real AST, so no field is silently ignored). Each failure is "
@@ -141,7 +141,7 @@ CHECKS = {
         "level": "exploration",
         "technique": "TLA+ contract Format.RunStable/Canonical + `incan fmt` mode machine (TLC); real formatter applied twice to the C08 "
                      "space + layout-edited variants; line traces and real CLI sessions (files as generated / CRLF / no final newline / trailing "
-                     "blank lines) validated by TLC (FormatTrace)",
+                     "blank lines) validated by TLC (FormatTrace); GenSyntax rows as files of rows, split down to the row on failure",
         "text": "Idempotence and canonical form are evaluated by TLC on the recorded line trace of every real formatter run; the CLI modes "
                 "(fmt / --check / --diff) are a small TLC-checked state machine against which recorded real sessions (exit status, file "
                 "bytes and mtime before/after) are validated.",
